@@ -205,6 +205,8 @@ pub enum Con {
     LitConj(Vec<Lit>),
     /// `Solver::add_clause` over arbitrary predicates
     PredClause(Vec<Pred>),
+    /// `Solver::add_clause` over predicates written on views: `[scale * x + off  op  value]`
+    ViewClause(Vec<(View, Pk, i32)>),
     Cumulative { starts: Vec<View>, durations: Vec<i32>, usages: Vec<i32>, capacity: i32, options: u32 },
     /// `NegatableConstraint::negation`
     Not(Box<Con>),
@@ -261,6 +263,7 @@ impl Con {
             Con::LitClause(ls) => ls.iter().any(|l| l.holds(a)),
             Con::LitConj(ls) => ls.iter().all(|l| l.holds(a)),
             Con::PredClause(ps) => ps.iter().any(|p| p.holds(a)),
+            Con::ViewClause(ps) => ps.iter().any(|(v, k, val)| k.test(v.eval(a) as i64, *val as i64)),
             Con::Cumulative { starts, durations, usages, capacity, .. } => {
                 let st: Vec<i128> = starts.iter().map(|v| v.eval(a)).collect();
                 // The usage profile only increases at start points of tasks that actually run.
@@ -315,6 +318,7 @@ impl Con {
             }
             Con::LitClause(ls) | Con::LitConj(ls) => s.extend(ls.iter().map(|l| l.var)),
             Con::PredClause(ps) => s.extend(ps.iter().map(|p| p.var)),
+            Con::ViewClause(ps) => s.extend(ps.iter().map(|(v, _, _)| v.var)),
             Con::Cumulative { starts, .. } => vs(starts),
             Con::Not(c) => c.collect_scope(s),
             Con::Half(c, l) | Con::Reif(c, l) => {
@@ -356,6 +360,7 @@ impl Con {
             Con::LitClause(..) => "clause",
             Con::LitConj(..) => "conjunction",
             Con::PredClause(..) => "pred_clause",
+            Con::ViewClause(..) => "view_clause",
             Con::Cumulative { .. } => "cumulative",
             Con::Not(..) => "not",
             Con::Half(..) => "half",
@@ -398,6 +403,7 @@ impl Con {
             Con::BoolEq(w, b, x) => J::obj(vec![("k", k), ("w", J::ints(w)), ("b", lits(b)), ("x", J::i(*x as i64))]),
             Con::LitClause(ls) | Con::LitConj(ls) => J::obj(vec![("k", k), ("b", lits(ls))]),
             Con::PredClause(ps) => J::obj(vec![("k", k), ("p", J::Arr(ps.iter().map(|p| p.to_json()).collect()))]),
+            Con::ViewClause(ps) => J::obj(vec![("k", k), ("p", J::Arr(ps.iter().map(|(v, op, val)| J::Arr(vec![v.to_json(), J::s(op.name()), J::i(*val)])).collect()))]),
             Con::Cumulative { starts, durations, usages, capacity, options } => J::obj(vec![
                 ("k", k),
                 ("t", views(starts)),
@@ -436,6 +442,16 @@ impl Con {
             "clause" => Con::LitClause(lits(j.at("b"))),
             "conjunction" => Con::LitConj(lits(j.at("b"))),
             "pred_clause" => Con::PredClause(j.at("p").as_arr().iter().map(Pred::from_json).collect()),
+            "view_clause" => Con::ViewClause(
+                j.at("p")
+                    .as_arr()
+                    .iter()
+                    .map(|t| {
+                        let a = t.as_arr();
+                        (View::from_json(&a[0]), Pk::from_name(a[1].as_str()), a[2].as_i32())
+                    })
+                    .collect(),
+            ),
             "cumulative" => Con::Cumulative {
                 starts: views(j.at("t")),
                 durations: j.at("d").as_ints(),
